@@ -14,10 +14,11 @@ type Pub struct {
 }
 
 type Broker struct {
-	mu   sync.Mutex
-	ln   net.Listener
-	subs map[net.Conn]map[string]bool
-	Pubs []Pub
+	mu    sync.Mutex
+	ln    net.Listener
+	subs  map[net.Conn]map[string]bool
+	conns map[net.Conn]bool
+	Pubs  []Pub
 }
 
 func New() (*Broker, error) {
@@ -25,7 +26,7 @@ func New() (*Broker, error) {
 	if err != nil {
 		return nil, err
 	}
-	b := &Broker{ln: ln, subs: map[net.Conn]map[string]bool{}}
+	b := &Broker{ln: ln, subs: map[net.Conn]map[string]bool{}, conns: map[net.Conn]bool{}}
 	go func() {
 		for {
 			c, err := ln.Accept()
@@ -71,9 +72,13 @@ func encLen(n int) []byte {
 }
 
 func (b *Broker) serve(c net.Conn) {
+	b.mu.Lock()
+	b.conns[c] = true
+	b.mu.Unlock()
 	defer func() {
 		b.mu.Lock()
 		delete(b.subs, c)
+		delete(b.conns, c)
 		b.mu.Unlock()
 		c.Close()
 	}()
@@ -141,4 +146,24 @@ func (b *Broker) serve(c net.Conn) {
 			return
 		}
 	}
+}
+
+// Close stops the broker.
+func (b *Broker) Close() {
+	b.ln.Close()
+	b.mu.Lock()
+	for c := range b.conns {
+		if t, ok := c.(*net.TCPConn); ok {
+			t.SetLinger(0)
+		}
+		c.Close()
+	}
+	b.mu.Unlock()
+}
+
+// Published returns a copy of the publishes seen so far.
+func (b *Broker) Published() []Pub {
+	b.mu.Lock()
+	defer b.mu.Unlock()
+	return append([]Pub{}, b.Pubs...)
 }
